@@ -63,6 +63,9 @@ type VCOpts struct {
 	OnStore  func(fr *Frame, st *ssa.Store)
 	AutoContract func(fn *ssa.Function) *Contract // default contracts (e.g. cursor contract) when none is written
 	SafetyKinds map[string]bool // restrict safety kinds; nil = all
+	AfterCall func(fr *Frame, ins ssa.Instruction, c *ssa.CallCommon, callee *ssa.Function, args []Val, res Val)
+	OnMakeInterface func(fr *Frame, x *ssa.MakeInterface, iv Val)
+	CheckTags map[string]bool // clause groups whose obligations this run generates (nil: the untagged, structural group only)
 	ProtectParams bool
 	NoContents  bool // slice/string contents are not modelled (families are havoced instead): for properties about scalar state
 	GhostInit map[string]string // ghost scalar state vars with sort -> initial term handled by property driver
@@ -977,4 +980,11 @@ func (fr *Frame) snapshotLocals(st *State, skip func(a *ssa.Alloc) bool) func(st
 			}
 		}
 	}
+}
+
+func (o *VCOpts) checksTag(tag string) bool {
+	if o.CheckTags == nil {
+		return tag == ""
+	}
+	return o.CheckTags[tag]
 }
